@@ -5,7 +5,10 @@ CHECK = Check(
     "C03",
     streams=[emit_stream("c03", drv="c03"),
              # two units of this check's own (Gen/GenC03x.v), outside the sound fragment: the open finding nested_in_map_entry
-             emit_stream("c03x", drv="c03x", unitsdrv="c03xunits")],
+             emit_stream("c03x", drv="c03x", unitsdrv="c03xunits"),
+             # two units of this check's own (Gen/GenC03b.v), inside the sound fragment: an element of every integer and
+             # float kind the shared quick units lack, for the boundary sweep
+             emit_stream("c03b", drv="c03b", unitsdrv="c03bunits")],
     rule=("generated inspectors of the model's emit units x value variants (pointers nil/set, collections nil/empty/1/3 "
           "elements, boundary scalars) x every resolving path and the unknown-field / absent-key / index -1,len,len+1,huge / "
           "unparsable / nil-pointer / past-scalar variants x a rotation of assigned values (the element's own kind in value and "
@@ -13,7 +16,14 @@ CHECK = Check(
           "`set` (error + dump of the whole object; spec = the exact object when the path denotes an existing scalar/string/bytes "
           "element and the value converts) and `setframe` (the frame condition decided natively by the harness with reflect; "
           "spec = frame=1 always). distinct = distinct input text, all non-trivial. Stream c03x: the same case shapes on two "
-          "own units map[string]Rec / struct{F map[int32]Rec} with Rec{N Pt; C int32} held by value (outside the sound fragment)."),
+          "own units map[string]Rec / struct{F map[int32]Rec} with Rec{N Pt; C int32} held by value (outside the sound fragment). "
+          "Boundary sweep (tag bnd; Gen/GenC03.v bnd_block): per leaf kind one bounded pass, spread over the places where an "
+          "element of the kind occurs, of decimal TEXT sources (string, *string, []byte, *[]byte; buffered and not) spelling "
+          "kmin/kmax of the element's kind and of int64/uint64, their neighbours inside and outside the range, leading zeros, "
+          "explicit sign, -0, +5, malformed spellings; for float elements the greatest float32/float64, the rounding "
+          "boundaries to infinity and to zero, subnormals, integers beyond 2^24/2^53; and typed integer sources of every width "
+          "holding kmin/kmax of their kind. Stream c03b: the sweep on twelve own units B<kind> struct{F k; P *k; S []k; "
+          "M map[string]k}, one per integer and float kind (the shared quick units hold the representative kinds only)."),
     assumptions=["assigned values: scalars, strings, non-nil []byte in value and pointer form; pointers to containers (the "
                  "value.(*T) replacement branch) are outside the modelled domain and never generated",
                  "rendered floats stay inside the exact-decimal domain; empty text is never assigned into a []byte element",
